@@ -92,6 +92,12 @@ CHECKS['C20'] = dict(
    note='PARTIAL: wall-clock time bounds are about the interpreter; mixin recursion and import cycles are decided by correspondence only (the mixin/import evaluators are not yet in the model).',
    design='3/C20')
 
+CHECKS['C05'] = dict(
+   technique='Coq lemmas about the call mechanism of the evaluator model (positional binding with defaults, arity, silent definitions, a call = the callee body evaluated at the call site) + byte-exact model correspondence + reference-semantics (inlining) comparison',
+   text='Theorems C05_bind, C05_arity, C05_definition_silent, C05_call_is_body, C05_unknown_call_adds_nothing about call_mixin / bind_params (the model of Deferred.parse, Mixin.call, parse_args). Correspondence: generated mixin programs (arity 0-3, defaults, bodies with declarations, nested rules, &-selectors, @media, nested calls, @arguments; calls before/after definitions, , or ; separated; ordinary rule used as mixin) vs the model (bytes) and vs Spec/Sem.v sem_call (inlining with parameters in their own frame).',
+   note='PARTIAL: the whole-program theorem evaluation = evaluation of the inlined program is not proved (decided by correspondence); guards are C06, recursion C20. Known finding F27 (a nested call rebinds @arguments / same-named parameters for the rest of the calling body). Hygiene: parameter names are not names of other variables (granted by the property). Trusted: Coq kernel; hand model; harness/gens/sheet.py tree().',
+   design='3/C05')
+
 NOT_YET = {}
 
 
